@@ -341,7 +341,7 @@ func (g *vGen) lockOp() vOp {
 	r := g.r
 	o := vOp{kind: 'L', req: g.nextReq, conn: 1 + r.Intn(g.nconn), lockId: 1 + r.Intn(g.nids), key: g.keyBase + g.step()*r.Intn(g.nkeys)}
 	g.nextReq++
-	o.flag = vPick(r, []int{0, 1, 2, 3, 8}, []int{70, 6, 10, 4, 10})
+	o.flag = vPick(r, []int{0, 1, 2, 3, 8, 34, 35}, []int{68, 6, 9, 4, 10, 2, 1}) // 34/35: update carrying the contains-data flag (no frame: stage 1 has no value cell)
 	o.tflag = vPick(r, []int{0, 0x40, 0x10, 0x200, 0x210, 0x2000}, []int{62, 4, 16, 10, 4, 4})
 	o.timeout = vPick(r, []int{0, 1, 2, 3, 5, 9, 12, 20, 65535}, []int{25, 12, 12, 10, 12, 10, 8, 9, 2})
 	if o.tflag&0x40 != 0 {
